@@ -1887,3 +1887,906 @@ Section CompleteTheorems.
     rewrite E1. auto.
   Qed.
 End CompleteTheorems.
+
+(* ================================================================== 8. termination of a run of copies *)
+
+Lemma copies_nil ms : copies ms [] = ms.
+Proof. induction ms as [|m r IH]; cbn; [reflexivity|]. rewrite IH. reflexivity. Qed.
+
+Lemma outcomes_all_copy a b ms :
+  outcomes a b ms [] ->
+  forall m, In m ms ->
+    (exists es, entry a (m_src m) = Some es /\ entry b (m_src m) = Some (moved_to es m)) /\
+    entry b (m_tmp m) = None.
+Proof.
+  induction ms as [|x r IH]; cbn [outcomes]; [intros _ m []|].
+  intros (A & _ & _ & D & E) m [<-|Hm].
+  - split; [apply A; reflexivity|exact D].
+  - apply IH; auto.
+Qed.
+
+Lemma NoDup_app_intro {A} (a b : list A) :
+  NoDup a -> NoDup b -> (forall x, In x a -> In x b -> False) -> NoDup (a ++ b).
+Proof.
+  induction a as [|x a IH]; cbn; intros Ha Hb Hd; [exact Hb|].
+  inversion Ha as [|? ? Hx Ha']; subst. constructor.
+  - intros Hin. apply in_app_or in Hin. destruct Hin as [Hin|Hin]; [tauto|]. eapply Hd; [left; reflexivity|exact Hin].
+  - apply IH; auto. intros y Hy1 Hy2. eapply Hd; [right; exact Hy1|exact Hy2].
+Qed.
+
+Lemma index_from_ids bl bl' id a : map fst bl = map fst bl' -> index_from id bl a = index_from id bl' a.
+Proof.
+  revert bl' a; induction bl as [|[i t] r IH]; intros bl' a H; destruct bl' as [|[i' t'] r']; try discriminate; [reflexivity|].
+  cbn in H. injection H as -> H. cbn. destruct (i' =? id); [reflexivity|]. apply IH. exact H.
+Qed.
+
+Lemma indexed_index bl a i id :
+  NoDup (map fst bl) -> In (i, id) (indexed_from a (map fst bl)) -> index_from id bl a = Some i.
+Proof.
+  revert a; induction bl as [|[j t] r IH]; intros a Hnd; cbn; [tauto|].
+  inversion Hnd as [|? ? Hn Hr]; subst. intros [H|H].
+  - injection H as <- <-. rewrite Z.eqb_refl. reflexivity.
+  - destruct (j =? id) eqn:E.
+    + apply Z.eqb_eq in E. subst j. apply indexed_from_in in H. tauto.
+    + apply IH; auto.
+Qed.
+
+(* what one undisturbed all-copy pass does *)
+Lemma one_pass_copy_spec st c mb ma st' c' p' ms :
+  WF st -> c_moves c = [] -> 1 <= ma -> 0 <= mb ->
+  one_pass st c mb ma [] [] = Some (st', c', p', ms) ->
+  WF st' /\ c_moves c' = [] /\
+  map fst (d_blocks st') = map fst (d_blocks st) /\
+  (length (d_table st) <= length (d_table st'))%nat /\
+  NoDup (map m_src ms) /\
+  (forall m, In m ms ->
+     In (m_srcidx m, m_srcblk m) (indexed st) /\ In (m_dstidx m, m_dstblk m) (indexed st) /\
+     (m_dstidx m < m_srcidx m \/ (m_dstblk m = m_srcblk m /\ m_dstoff m < m_srcoff m)) /\
+     0 <= m_dstoff m /\ (m_src m < length (d_table st))%nat /\
+     exists es, entry st (m_src m) = Some es /\ u_temp es = false /\ u_blk es = m_srcblk m /\
+                u_off es = m_srcoff m /\ entry st' (m_src m) = Some (moved_to es m)) /\
+  (forall s, ~ In s (map m_src ms) -> (s < length (d_table st))%nat -> entry st' s = entry st s) /\
+  (forall s e, (length (d_table st) <= s)%nat -> entry st' s = Some e -> u_temp e = true) /\
+  ps_allocs_moved (p_stats p') = zlen ms /\ ps_bytes_moved (p_stats p') = zsum (map m_size ms).
+Proof.
+  intros HW Hfresh Hma Hmb. unfold one_pass.
+  destruct (collect_moves st c (pass_init mb ma)) as [cs r] eqn:Hcol.
+  pose proof (collect_cinv st c mb ma HW Hma Hmb Hfresh) as Hci. rewrite Hcol in Hci. cbn [fst snd] in Hci.
+  destruct Hci as (new & HC & _ & Hmoves).
+  pose proof (sources_are_user_allocs_once st c mb ma HW Hma Hmb Hfresh) as Hsrc. rewrite Hcol in Hsrc. cbn [fst] in Hsrc.
+  destruct Hsrc as (Hsrc & Hnds & Hndt & Hcross).
+  pose proof (collect_reserves st c mb ma HW Hma Hmb Hfresh) as Hres. rewrite Hcol in Hres. cbn [fst] in Hres.
+  destruct Hres as (HWc & Hext & Hres).
+  pose proof (moves_forward st c mb ma HW Hma Hmb Hfresh) as Hfw. rewrite Hcol in Hfw. cbn [fst] in Hfw.
+  pose proof (collect_within_limits st c mb ma HW Hma Hmb Hfresh) as Hlim. rewrite Hcol in Hlim. cbn [fst snd] in Hlim.
+  destruct Hlim as (_ & _ & _ & Hsa & Hsb).
+  set (c1 := mkC (c_algo c) (cs_moves cs) (c_immovable c)).
+  assert (Hnd : NoDup (map m_src (c_moves c1) ++ map m_tmp (c_moves c1))).
+  { cbn [c1 c_moves]. apply NoDup_app_intro; auto.
+    intros x Hx1 Hx2. apply in_map_iff in Hx1. destruct Hx1 as (m1 & <- & H1).
+    apply in_map_iff in Hx2. destruct Hx2 as (m2 & E & H2). apply (Hcross m1 m2 H1 H2). symmetry. exact E. }
+  assert (Hres1 : Forall (reserved (cs_st cs)) (c_moves c1)) by exact Hres.
+  destruct r as [| |w]; [| |discriminate].
+  all: destruct (r_kind (complete_pass (cs_st cs) c1 (cs_pass cs) [] [])) eqn:Hk; try discriminate.
+  all: intros H; injection H as <- <- <- <-.
+  all: pose proof (complete_pass_wf _ _ _ _ _ HWc Hres1 Hnd Hk) as (HW' & _ & _ & Hlen & Hmv).
+  all: pose proof (move_outcome _ _ _ _ _ HWc Hres1 Hnd Hk) as (Hout & Hun).
+  all: pose proof (stats_match _ _ _ _ _ HWc Hres1 Hnd Hk Hsa Hsb) as (Hst1 & Hst2).
+  all: pose proof (all_copy_no_swap _ _ _ _ _ HWc Hres1 Hnd Hk (copies_nil _)) as (Hids & _).
+  all: cbn [c1 c_moves] in *; rewrite copies_nil in Hst1, Hst2.
+  all: pose proof (outcomes_all_copy _ _ _ Hout) as Hoc.
+  all: (split; [exact HW'|]); (split; [exact Hmv|]).
+  all: (split; [rewrite Hids; apply (proj1 Hext)|]).
+  all: (split; [rewrite Hlen; destruct Hext as (_ & _ & E3 & _); exact E3|]); (split; [exact Hnds|]).
+  all: split;
+    [intros m Hm; destruct (Hfw m Hm) as (F1 & F2 & F3); destruct (Hsrc m Hm) as (es & S1 & S2 & S3 & S4 & S5 & _);
+     destruct (Hoc m Hm) as ((es' & O1 & O2) & _); rewrite S2 in O1; injection O1 as <-;
+     split; [exact F1|]; split; [exact F2|]; split; [exact F3|]; split;
+     [rewrite Forall_forall in Hres; destruct (Hres m Hm) as (_ & (et & T1 & _ & T3 & T4 & _));
+      destruct (wf_own _ HWc _ _ T1) as ((b & (t & Hf & Hin & Ho) & _) & _);
+      destruct (wb_tinv _ (wf_b _ HWc) _ _ Hf) as ((Hinv & _) & _);
+      destruct (inv1_live_sound _ Hinv _ Hin) as (Hge & _); rewrite <- T4, <- Ho; exact Hge|];
+     split; [eapply entry_lt; eauto|]; exists es; auto|].
+  all: split;
+    [intros s Hs Hlt; rewrite Hun;
+     [destruct Hext as (_ & _ & _ & E4); apply E4; exact Hlt|exact Hs|];
+     intros Hin; apply in_map_iff in Hin; destruct Hin as (m & E & Hm);
+     pose proof (ci_ok _ _ _ _ _ _ HC) as Hok; rewrite Forall_forall in Hok; rewrite Hmoves in Hm;
+     destruct (Hok m Hm) as [_ _ _ _ _ T]; lia|].
+  all: split; [|split; [exact Hst1|exact Hst2]].
+  all: intros s e Hs He;
+    destruct (in_dec Nat.eq_dec s (map m_tmp (cs_moves cs))) as [Hin|Hnin];
+    [apply in_map_iff in Hin; destruct Hin as (m & <- & Hm); destruct (Hoc m Hm) as (_ & Hn); congruence|];
+    rewrite Hun in He;
+    [apply (ci_newtemps _ _ _ _ _ _ HC s e Hs He)| |exact Hnin];
+    intros Hin; apply in_map_iff in Hin; destruct Hin as (m & E & Hm); destruct (Hsrc m Hm) as (es & S1 & _);
+    apply entry_lt in S1; lia.
+Qed.
+
+(* ------------------------------------------------------------------ the measure *)
+
+Definition blk_index (st : dstate) (id : Z) : nat :=
+  match index_from id (d_blocks st) 0 with Some i => Z.to_nat i | None => O end.
+
+(* block index / offset of the user allocation in slot s (0 for temporaries and empty slots) *)
+Definition w_idx (st : dstate) (s : nat) : nat :=
+  match entry st s with Some e => if u_temp e then O else blk_index st (u_blk e) | None => O end.
+Definition w_off (st : dstate) (s : nat) : nat :=
+  match entry st s with Some e => if u_temp e then O else Z.to_nat (u_off e) | None => O end.
+
+Fixpoint sum_n (f : nat -> nat) (n : nat) : nat :=
+  match n with O => O | S k => (f k + sum_n f k)%nat end.
+
+(* the lexicographic measure: (sum of block indices, sum of offsets) over all user allocations *)
+Definition m_idx (st : dstate) : nat := sum_n (w_idx st) (length (d_table st)).
+Definition m_off (st : dstate) : nat := sum_n (w_off st) (length (d_table st)).
+
+Lemma sum_n_le f g n : (forall s, (s < n)%nat -> (f s <= g s)%nat) -> (sum_n f n <= sum_n g n)%nat.
+Proof.
+  induction n as [|k IH]; intros H; cbn; [lia|].
+  specialize (H k ltac:(lia)) as Hk. specialize (IH ltac:(intros s Hs; apply H; lia)). lia.
+Qed.
+
+Lemma sum_n_lt f g n :
+  (forall s, (s < n)%nat -> (f s <= g s)%nat) -> (exists s, (s < n)%nat /\ (f s < g s)%nat) ->
+  (sum_n f n < sum_n g n)%nat.
+Proof.
+  induction n as [|k IH]; intros H (s & Hs & Hlt); cbn; [lia|].
+  pose proof (H k ltac:(lia)) as Hk.
+  destruct (Nat.eq_dec s k) as [->|Hne].
+  - pose proof (sum_n_le f g k ltac:(intros x Hx; apply H; lia)). lia.
+  - assert (sum_n f k < sum_n g k)%nat.
+    { apply IH; [intros x Hx; apply H; lia|]. exists s. split; [lia|exact Hlt]. }
+    lia.
+Qed.
+
+Lemma sum_n_tail f n n' :
+  (n <= n')%nat -> (forall s, (n <= s)%nat -> f s = O) -> sum_n f n' = sum_n f n.
+Proof.
+  intros Hle Hz. induction n' as [|k IH]; [assert (n = O) by lia; subst; reflexivity|].
+  destruct (Nat.eq_dec n (S k)) as [->|Hne]; [reflexivity|].
+  cbn. rewrite Hz by lia. rewrite IH by lia. reflexivity.
+Qed.
+
+Lemma nonempty_in {A} (l : list A) : l <> [] -> exists x, In x l.
+Proof. destruct l as [|x r]; [congruence|]. intros _. exists x. left. reflexivity. Qed.
+
+Section PassDecreases.
+  Variables (st st' : dstate) (ms : list move).
+  Hypothesis HW : WF st.
+  Hypothesis Hids : map fst (d_blocks st') = map fst (d_blocks st).
+  Hypothesis Hlen : (length (d_table st) <= length (d_table st'))%nat.
+  Hypothesis Hmoves : forall m, In m ms ->
+     In (m_srcidx m, m_srcblk m) (indexed st) /\ In (m_dstidx m, m_dstblk m) (indexed st) /\
+     (m_dstidx m < m_srcidx m \/ (m_dstblk m = m_srcblk m /\ m_dstoff m < m_srcoff m)) /\
+     0 <= m_dstoff m /\ (m_src m < length (d_table st))%nat /\
+     exists es, entry st (m_src m) = Some es /\ u_temp es = false /\ u_blk es = m_srcblk m /\
+                u_off es = m_srcoff m /\ entry st' (m_src m) = Some (moved_to es m).
+  Hypothesis Hun : forall s, ~ In s (map m_src ms) -> (s < length (d_table st))%nat -> entry st' s = entry st s.
+  Hypothesis Hnew : forall s e, (length (d_table st) <= s)%nat -> entry st' s = Some e -> u_temp e = true.
+
+  Let N := length (d_table st).
+
+  Lemma blk_index_same id : blk_index st' id = blk_index st id.
+  Proof. unfold blk_index. rewrite (index_from_ids _ _ id 0 Hids). reflexivity. Qed.
+
+  Lemma blk_index_of i id : In (i, id) (indexed st) -> blk_index st id = Z.to_nat i /\ 0 <= i.
+  Proof.
+    intros Hin. unfold blk_index, indexed in *.
+    rewrite (indexed_index _ _ _ _ (wb_ids _ (wf_b _ HW)) Hin). split; [reflexivity|].
+    apply indexed_from_in in Hin. lia.
+  Qed.
+
+  Lemma measures_tail : m_idx st' = sum_n (w_idx st') N /\ m_off st' = sum_n (w_off st') N.
+  Proof.
+    unfold m_idx, m_off. split; apply sum_n_tail; auto; intros s Hs.
+    - unfold w_idx. destruct (entry st' s) as [e|] eqn:E; [|reflexivity]. rewrite (Hnew _ _ Hs E). reflexivity.
+    - unfold w_off. destruct (entry st' s) as [e|] eqn:E; [|reflexivity]. rewrite (Hnew _ _ Hs E). reflexivity.
+  Qed.
+
+  (* a slot that is the source of a move *)
+  Lemma src_weights m : In m ms ->
+    w_idx st (m_src m) = Z.to_nat (m_srcidx m) /\ w_idx st' (m_src m) = Z.to_nat (m_dstidx m) /\
+    w_off st (m_src m) = Z.to_nat (m_srcoff m) /\ w_off st' (m_src m) = Z.to_nat (m_dstoff m) /\
+    0 <= m_srcidx m /\ 0 <= m_dstidx m /\ 0 <= m_dstoff m.
+  Proof.
+    intros Hm. destruct (Hmoves m Hm) as (I1 & I2 & _ & Hd0 & _ & es & E1 & E2 & E3 & E4 & E5).
+    destruct (blk_index_of _ _ I1) as (B1 & P1). destruct (blk_index_of _ _ I2) as (B2 & P2).
+    unfold w_idx, w_off. rewrite E1, E5. cbn [moved_to u_temp u_blk u_off]. rewrite E2, E3, E4, blk_index_same, B1, B2.
+    repeat split; auto.
+  Qed.
+
+  Lemma other_weights s : ~ In s (map m_src ms) -> (s < N)%nat ->
+    w_idx st' s = w_idx st s /\ w_off st' s = w_off st s.
+  Proof.
+    intros Hs Hlt. unfold w_idx, w_off. rewrite (Hun s Hs Hlt).
+    destruct (entry st s) as [e|]; [|auto]. destruct (u_temp e); [auto|]. rewrite blk_index_same. auto.
+  Qed.
+
+  Lemma idx_pointwise s : (s < N)%nat -> (w_idx st' s <= w_idx st s)%nat.
+  Proof.
+    intros Hlt. destruct (in_dec Nat.eq_dec s (map m_src ms)) as [Hin|Hnin].
+    - apply in_map_iff in Hin. destruct Hin as (m & <- & Hm).
+      destruct (src_weights m Hm) as (A & B & _ & _ & P1 & P2 & _). rewrite A, B.
+      destruct (Hmoves m Hm) as (I1 & I2 & [F|(F & _)] & _).
+      + lia.
+      + rewrite F in I2. unfold indexed in I1, I2.
+        pose proof (indexed_from_id_fun _ _ _ _ _ (wb_ids _ (wf_b _ HW)) I1 I2). lia.
+    - destruct (other_weights s Hnin Hlt) as (-> & _). lia.
+  Qed.
+
+  (* some move changes block: the sum of block indices drops *)
+  Lemma cross_block_decreases :
+    (exists m, In m ms /\ m_dstidx m < m_srcidx m) -> (m_idx st' < m_idx st)%nat.
+  Proof.
+    intros (m & Hm & Hlt). rewrite (proj1 measures_tail). unfold m_idx. fold N.
+    apply sum_n_lt; [exact idx_pointwise|]. exists (m_src m).
+    destruct (Hmoves m Hm) as (_ & _ & _ & _ & Hs & _). split; [exact Hs|].
+    destruct (src_weights m Hm) as (A & B & _ & _ & P1 & P2 & _). rewrite A, B. lia.
+  Qed.
+
+  (* every move stays in its block: block indices unchanged, the sum of offsets drops *)
+  Lemma same_block_decreases :
+    ms <> [] -> (forall m, In m ms -> ~ m_dstidx m < m_srcidx m) ->
+    m_idx st' = m_idx st /\ (m_off st' < m_off st)%nat.
+  Proof.
+    intros Hne Hsame.
+    assert (Hfw : forall m, In m ms -> m_dstblk m = m_srcblk m /\ m_dstoff m < m_srcoff m).
+    { intros m Hm. destruct (Hmoves m Hm) as (_ & _ & [F|F] & _); [exfalso; apply (Hsame m Hm F)|exact F]. }
+    destruct measures_tail as (T1 & T2). rewrite T1, T2. unfold m_idx, m_off. fold N. split.
+    - assert (Hle1 : (sum_n (w_idx st') N <= sum_n (w_idx st) N)%nat) by (apply sum_n_le; exact idx_pointwise).
+      assert (Hle2 : (sum_n (w_idx st) N <= sum_n (w_idx st') N)%nat).
+      { apply sum_n_le. intros s Hlt. destruct (in_dec Nat.eq_dec s (map m_src ms)) as [Hin|Hnin].
+        - apply in_map_iff in Hin. destruct Hin as (m & <- & Hm).
+          destruct (src_weights m Hm) as (A & B & _). rewrite A, B.
+          destruct (Hmoves m Hm) as (I1 & I2 & _). destruct (Hfw m Hm) as (F & _).
+          rewrite F in I2. unfold indexed in I1, I2.
+          pose proof (indexed_from_id_fun _ _ _ _ _ (wb_ids _ (wf_b _ HW)) I1 I2). lia.
+        - destruct (other_weights s Hnin Hlt) as (-> & _). lia. }
+      lia.
+    - apply sum_n_lt.
+      + intros s Hlt. destruct (in_dec Nat.eq_dec s (map m_src ms)) as [Hin|Hnin].
+        * apply in_map_iff in Hin. destruct Hin as (m & <- & Hm).
+          destruct (src_weights m Hm) as (_ & _ & A & B & _ & _ & P). rewrite A, B.
+          destruct (Hfw m Hm) as (_ & F). lia.
+        * destruct (other_weights s Hnin Hlt) as (_ & ->). lia.
+      + destruct (nonempty_in ms Hne) as (m & Hm). exists (m_src m).
+        destruct (Hmoves m Hm) as (_ & _ & _ & _ & Hs & _). split; [exact Hs|].
+        destruct (src_weights m Hm) as (_ & _ & A & B & _ & _ & P). rewrite A, B.
+        destruct (Hfw m Hm) as (_ & F). lia.
+  Qed.
+End PassDecreases.
+
+(* C15 (7), copy-only: with no user operation between the passes and every move copied, every
+   pass that proposes a move strictly decreases the lexicographic measure (sum over the user
+   allocations of their block index, sum of their offsets); hence a run reaches a pass that
+   proposes nothing (RunDone) — or stops with a failure — after finitely many passes. *)
+Theorem run_terminates_copy_only_partial st c mb ma acc n log :
+  WF st -> c_moves c = [] -> 1 <= ma -> 0 <= mb ->
+  exists fuel, run_copy fuel st c mb ma acc n log <> RunOutOfFuel.
+Proof.
+  intros HW Hfresh Hma Hmb.
+  remember (m_idx st) as a eqn:Ha. remember (m_off st) as b eqn:Hb.
+  revert b st c acc n log HW Hfresh Ha Hb.
+  induction a as [a IHa] using lt_wf_ind. intros b.
+  induction b as [b IHb] using lt_wf_ind. intros st c acc n log HW Hfresh Ha Hb.
+  destruct (one_pass st c mb ma [] []) as [[[[st' c'] p'] ms]|] eqn:Hp.
+  2:{ exists 1%nat. cbn [run_copy]. rewrite Hp. discriminate. }
+  destruct ms as [|m r].
+  { exists 1%nat. cbn [run_copy]. rewrite Hp. discriminate. }
+  destruct (one_pass_copy_spec _ _ _ _ _ _ _ _ HW Hfresh Hma Hmb Hp)
+    as (HW' & Hfresh' & Hids & Hlen & _ & Hmoves & Hun & Hnew & _).
+  assert (Hrec : exists fuel, run_copy fuel st' c' mb ma (ps_add acc (p_stats p')) (S n) (log ++ [m :: r]) <> RunOutOfFuel).
+  { destruct (existsb (fun x => m_dstidx x <? m_srcidx x) (m :: r)) eqn:Hcross.
+    - apply existsb_exists in Hcross. destruct Hcross as (x & Hx & Hlt). apply Z.ltb_lt in Hlt.
+      pose proof (cross_block_decreases st st' (m :: r) HW Hids Hlen Hmoves Hun Hnew (ex_intro _ x (conj Hx Hlt))) as Hdec.
+      eapply (IHa (m_idx st')); [lia|exact HW'|exact Hfresh'|reflexivity|reflexivity].
+    - assert (Hsame : forall x, In x (m :: r) -> ~ m_dstidx x < m_srcidx x).
+      { intros x Hx Hlt. assert (existsb (fun x => m_dstidx x <? m_srcidx x) (m :: r) = true).
+        { apply existsb_exists. exists x. split; [exact Hx|apply Z.ltb_lt; exact Hlt]. }
+        congruence. }
+      destruct (same_block_decreases st st' (m :: r) HW Hids Hlen Hmoves Hun Hnew ltac:(discriminate) Hsame) as (He & Hdec).
+      eapply (IHb (m_off st')); [lia|exact HW'|exact Hfresh'|congruence|reflexivity]. }
+  destruct Hrec as (fuel & Hf). exists (S fuel). cbn [run_copy]. rewrite Hp. exact Hf.
+Qed.
+
+(* the accumulated statistics of a run are the sums over its passes (C15: "the final statistics
+   equal the moves actually carried out") *)
+Definition log_allocs (log : list (list move)) : Z := zsum (map (fun ms => zlen ms) log).
+Definition log_bytes (log : list (list move)) : Z := zsum (map (fun ms => zsum (map m_size ms)) log).
+
+Lemma log_allocs_app a b : log_allocs (a ++ b) = log_allocs a + log_allocs b.
+Proof. unfold log_allocs. rewrite map_app, zsum_app. reflexivity. Qed.
+Lemma log_bytes_app a b : log_bytes (a ++ b) = log_bytes a + log_bytes b.
+Proof. unfold log_bytes. rewrite map_app, zsum_app. reflexivity. Qed.
+
+Theorem run_stats_accumulate fuel : forall st c mb ma acc n log st' k acc' log',
+  WF st -> c_moves c = [] -> 1 <= ma -> 0 <= mb ->
+  run_copy fuel st c mb ma acc n log = RunDone st' k acc' log' ->
+  ps_allocs_moved acc' - log_allocs log' = ps_allocs_moved acc - log_allocs log /\
+  ps_bytes_moved acc' - log_bytes log' = ps_bytes_moved acc - log_bytes log /\
+  WF st'.
+Proof.
+  induction fuel as [|f IH]; intros st c mb ma acc n log st' k acc' log' HW Hfresh Hma Hmb; cbn [run_copy]; [discriminate|].
+  destruct (one_pass st c mb ma [] []) as [[[[st1 c1] p1] ms]|] eqn:Hp; [|discriminate].
+  destruct (one_pass_copy_spec _ _ _ _ _ _ _ _ HW Hfresh Hma Hmb Hp)
+    as (HW1 & Hfresh1 & _ & _ & _ & _ & _ & _ & Hsa & Hsb).
+  assert (Hstep : ps_allocs_moved (ps_add acc (p_stats p1)) - log_allocs (log ++ [ms]) = ps_allocs_moved acc - log_allocs log /\
+                  ps_bytes_moved (ps_add acc (p_stats p1)) - log_bytes (log ++ [ms]) = ps_bytes_moved acc - log_bytes log).
+  { rewrite log_allocs_app, log_bytes_app. unfold log_allocs, log_bytes. cbn [map zsum ps_add ps_allocs_moved ps_bytes_moved].
+    rewrite Hsa, Hsb. lia. }
+  destruct ms as [|m r].
+  - intros H; injection H as <- _ <- <-. destruct Hstep. auto.
+  - intros H. destruct (IH _ _ _ _ _ _ _ _ _ _ _ HW1 Hfresh1 Hma Hmb H) as (A & B & C). destruct Hstep. split; [lia|]. split; [lia|exact C].
+Qed.
+
+(* ================================================================== 9. termination with arbitrary decisions *)
+
+(* ------------------------------------------------------------------ sources come from the walked blocks only *)
+
+Definition moves_ext (bi : Z) (cs : cstate) (res : cstate * wres) : Prop :=
+  exists add, cs_moves (fst res) = cs_moves cs ++ add /\ Forall (fun m => m_srcidx m = bi) add.
+
+Lemma moves_ext_refl bi cs r : moves_ext bi cs (cs, r).
+Proof. exists []. rewrite app_nil_r. split; [reflexivity|constructor]. Qed.
+
+Lemma moves_ext_set_st bi cs st r : moves_ext bi cs (cs_set_st cs st, r).
+Proof. exists []. rewrite app_nil_r. split; [reflexivity|constructor]. Qed.
+
+Lemma commit_move_ext cs st' slot e bi dstidx did off : moves_ext bi cs (commit_move cs st' slot e bi dstidx did off).
+Proof.
+  unfold commit_move. destruct (increment_counters _ _) as [p' r]. eexists. cbn [fst cs_moves].
+  split; [reflexivity|]. constructor; [reflexivity|constructor].
+Qed.
+
+Lemma lower_if_ext cs bi id h slot e : moves_ext bi cs (lower_if cs bi id h slot e).
+Proof.
+  unfold lower_if. destruct (find_id _ _); [|apply moves_ext_refl].
+  destruct (_ && _); [|apply moves_ext_refl]. unfold try_lower.
+  destruct (alloc_lower _ _ _ _ _ _); [apply commit_move_ext|apply moves_ext_set_st|apply moves_ext_refl].
+Qed.
+
+Lemma handle_alloc_ext algo ix cs bi id h slot e : moves_ext bi cs (handle_alloc algo ix cs bi id h slot e).
+Proof.
+  unfold handle_alloc. destruct (algo =? 0); [apply lower_if_ext|].
+  destruct (algo =? 1).
+  - destruct (bi =? 0); [apply moves_ext_refl|].
+    destruct (alloc_other _ _ _ _ _); [apply commit_move_ext|apply moves_ext_set_st|apply moves_ext_set_st].
+  - destruct (0 <? bi); [|apply lower_if_ext].
+    destruct (alloc_other _ _ _ _ _) as [st' idx did off|st'|st']; [apply commit_move_ext| |apply moves_ext_set_st].
+    destruct (lower_if_ext (cs_set_st cs st') bi id h slot e) as (add & A & B). exists add. auto.
+Qed.
+
+Lemma visit_ext algo ix cs bi id h : moves_ext bi cs (visit algo ix cs bi id h).
+Proof.
+  unfold visit. destruct (find_id _ _); [|apply moves_ext_refl].
+  destruct (get_move_data _ _ _) as [| |slot e]; try apply moves_ext_refl.
+  destruct (check_counters _ _) as [p1 c0]. destruct c0.
+  - destruct (handle_alloc_ext algo ix (cs_set_pass cs p1) bi id h slot e) as (add & A & B). exists add. auto.
+  - exists []. rewrite app_nil_r. split; [reflexivity|constructor].
+  - exists []. rewrite app_nil_r. split; [reflexivity|constructor].
+Qed.
+
+Lemma walk_block_ext fuel algo ix : forall cs bi id h, moves_ext bi cs (walk_block fuel algo ix cs bi id h).
+Proof.
+  induction fuel as [|f IH]; intros cs bi id h; cbn [walk_block]; [apply moves_ext_refl|].
+  destruct (visit_ext algo ix cs bi id h) as (add & A & B).
+  destruct (visit algo ix cs bi id h) as [cs' r]. cbn [fst] in A.
+  destruct r; [|exists add; split; [exact A|exact B]|exists add; split; [exact A|exact B]].
+  destruct (find_id _ _); [|exists add; split; [exact A|exact B]].
+  destruct (next_alloc _ _) as [h'|]; [|exists add; split; [exact A|exact B]].
+  destruct (IH cs' bi id h') as (add2 & A2 & B2). exists (add ++ add2).
+  split; [rewrite A2, A, app_assoc; reflexivity|apply Forall_app; auto].
+Qed.
+
+Lemma walk_blocks_ext fuel algo ix srcs : forall cs,
+  exists add, cs_moves (fst (walk_blocks fuel algo ix cs srcs)) = cs_moves cs ++ add /\
+              Forall (fun m => exists x, In x srcs /\ m_srcidx m = fst x) add.
+Proof.
+  induction srcs as [|[bi id] rest IH]; intros cs; cbn [walk_blocks].
+  - exists []. rewrite app_nil_r. split; [reflexivity|constructor].
+  - assert (Hnil : exists add, cs_moves cs = cs_moves cs ++ add /\
+                               Forall (fun m => exists x, In x ((bi, id) :: rest) /\ m_srcidx m = fst x) add).
+    { exists []. rewrite app_nil_r. split; [reflexivity|constructor]. }
+    assert (Hrest : forall cs1 add1, cs_moves cs1 = cs_moves cs ++ add1 -> Forall (fun m => m_srcidx m = bi) add1 ->
+              exists add, cs_moves (fst (walk_blocks fuel algo ix cs1 rest)) = cs_moves cs ++ add /\
+                          Forall (fun m => exists x, In x ((bi, id) :: rest) /\ m_srcidx m = fst x) add).
+    { intros cs1 add1 A1 B1. destruct (IH cs1) as (add2 & A2 & B2). exists (add1 ++ add2).
+      split; [rewrite A2, A1, app_assoc; reflexivity|]. apply Forall_app. split.
+      - eapply Forall_impl; [|exact B1]. intros m Hm. exists (bi, id). split; [left; reflexivity|exact Hm].
+      - eapply Forall_impl; [|exact B2]. intros m (x & Hx & E). exists x. split; [right; exact Hx|exact E]. }
+    destruct (find_id _ _); [|exact Hnil].
+    destruct (list_begin _) as [|h|]; [| |exact Hnil].
+    + apply (Hrest cs []); [rewrite app_nil_r; reflexivity|constructor].
+    + destruct (walk_block_ext fuel algo ix cs bi id h) as (add & A & B).
+      destruct (walk_block fuel algo ix cs bi id h) as [cs' r]. cbn [fst] in A.
+      assert (Hstop : exists add0, cs_moves cs' = cs_moves cs ++ add0 /\
+                                   Forall (fun m => exists x, In x ((bi, id) :: rest) /\ m_srcidx m = fst x) add0).
+      { exists add. split; [exact A|]. eapply Forall_impl; [|exact B]. intros m Hm. exists (bi, id). split; [left; reflexivity|exact Hm]. }
+      destruct r; [apply (Hrest cs' add); auto|exact Hstop|exact Hstop].
+Qed.
+
+Lemma skipn_indexed_ge n : forall a ids i id, In (i, id) (skipn n (indexed_from a ids)) -> a + Z.of_nat n <= i.
+Proof.
+  induction n as [|n IH]; intros a ids i id H.
+  - cbn in H. apply indexed_from_in in H. lia.
+  - destruct ids as [|x r]; [destruct H|]. cbn in H. apply IH in H. lia.
+Qed.
+
+(* every move a pass proposes comes from a block at or after immovableBlockCount *)
+Lemma collect_src_not_immovable st c p m :
+  0 <= c_immovable c -> In m (cs_moves (fst (collect_moves st c p))) ->
+  In m (c_moves c) \/ c_immovable c <= m_srcidx m.
+Proof.
+  intros Himm. unfold collect_moves.
+  assert (Hw : forall algo, In m (cs_moves (fst (walk_blocks (walk_fuel st) algo (indexed st) (mkCS st (c_moves c) p)
+                                 (rev (skipn (Z.to_nat (c_immovable c)) (indexed st)))))) ->
+                            In m (c_moves c) \/ c_immovable c <= m_srcidx m).
+  { intros algo Hin.
+    destruct (walk_blocks_ext (walk_fuel st) algo (indexed st) (rev (skipn (Z.to_nat (c_immovable c)) (indexed st)))
+                              (mkCS st (c_moves c) p)) as (add & A & B).
+    rewrite A in Hin. cbn [cs_moves] in Hin. apply in_app_or in Hin. destruct Hin as [Hin|Hin]; [left; exact Hin|right].
+    rewrite Forall_forall in B. destruct (B _ Hin) as ([i id] & Hx & E). apply in_rev in Hx.
+    unfold indexed in Hx. apply skipn_indexed_ge in Hx. rewrite E. cbn. rewrite Z2Nat.id in Hx by lia. lia. }
+  destruct (1 <? zlen (d_blocks st)).
+  - destruct (c_algo c =? 1); [apply Hw|]. destruct (c_algo c =? 2); [apply Hw|]. cbn. auto.
+  - destruct (_ && _); [apply Hw|cbn; auto].
+Qed.
+
+(* ------------------------------------------------------------------ the immovable set of a pass *)
+
+Fixpoint has_ignore (ms : list move) (ds : list Z) : bool :=
+  match ms with
+  | [] => false
+  | _ :: r => (norm_decision (hd 0 ds) =? 1) || has_ignore r (tl ds)
+  end.
+
+Lemma complete_moves_imm ms : forall cp ds cp',
+  complete_moves cp ms ds = (cp', false) -> cp_err cp' = false ->
+  (forall id, In id (cp_imm cp') -> In id (cp_imm cp) \/ exists m, In m ms /\ m_srcblk m = id) /\
+  (cp_imm cp <> [] -> cp_imm cp' <> []) /\
+  (has_ignore ms ds = true -> cp_imm cp' <> []) /\
+  (has_ignore ms ds = false -> cp_imm cp' = cp_imm cp).
+Proof.
+  induction ms as [|m r IH]; intros cp ds cp'; cbn [complete_moves has_ignore].
+  - intros H _; injection H as <-. repeat split; auto; discriminate.
+  - destruct (blocks_stats (d_blocks (cp_st cp))) as [pc pb].
+    set (d := norm_decision (hd 0 ds)).
+    destruct (handler_move (cp_st cp) m d) as [st1 k]. destruct k.
+    + destruct (blocks_stats (d_blocks st1)) as [ac ab].
+      set (imm1 := if (d =? 1) && negb (mem_zb (m_srcblk m) (cp_imm cp)) then cp_imm cp ++ [m_srcblk m] else cp_imm cp).
+      intros Hcm Herr. destruct (IH _ _ _ Hcm Herr) as (A & B & C & D). cbn [cp_imm] in *.
+      assert (Hsub : forall id, In id imm1 -> In id (cp_imm cp) \/ m_srcblk m = id).
+      { intros id Hin. unfold imm1 in Hin. destruct (_ && _); [|left; exact Hin].
+        apply in_app_or in Hin. destruct Hin as [Hin|[<-|[]]]; auto. }
+      assert (Hgrow : cp_imm cp <> [] -> imm1 <> []).
+      { intros Hne. unfold imm1. destruct (_ && _); [|exact Hne]. destruct (cp_imm cp); [congruence|discriminate]. }
+      split; [|split; [|split]].
+      * intros id Hin. destruct (A id Hin) as [H1|(m' & Hm' & E)].
+        -- destruct (Hsub id H1) as [H2|H2]; [left; exact H2|right; exists m; split; [left; reflexivity|exact H2]].
+        -- right. exists m'. split; [right; exact Hm'|exact E].
+      * intros Hne. apply B. apply Hgrow. exact Hne.
+      * intros Hi. apply orb_prop in Hi. destruct Hi as [Hi|Hi]; [|apply C; exact Hi].
+        apply B. unfold imm1. rewrite Hi. cbn [andb].
+        destruct (mem_zb (m_srcblk m) (cp_imm cp)) eqn:Hmem; cbn [negb].
+        -- destruct (cp_imm cp); [discriminate|discriminate].
+        -- destruct (cp_imm cp); discriminate.
+      * intros Hi. apply orb_false_elim in Hi. destruct Hi as (Hi1 & Hi2).
+        rewrite (D Hi2). unfold imm1. rewrite Hi1. reflexivity.
+    + intros Hcm Herr. apply complete_moves_err in Hcm; [congruence|reflexivity].
+    + intros Hcm Herr. apply complete_moves_err in Hcm; [congruence|reflexivity].
+    + intros H; injection H as _ H; discriminate.
+Qed.
+
+(* ------------------------------------------------------------------ swapImmovableBlocks makes progress *)
+
+Lemma index_from_bounds id bl a j : index_from id bl a = Some j -> a <= j < a + zlen bl.
+Proof.
+  revert a; induction bl as [|[i t] r IH]; intros a; cbn; [discriminate|]. unfold zlen in *. cbn [length].
+  destruct (i =? id); [intros H; injection H as <-; lia|]. intros H. apply IH in H. lia.
+Qed.
+
+Lemma index_from_some id bl a : In id (map fst bl) -> exists j, index_from id bl a = Some j.
+Proof.
+  revert a; induction bl as [|[i t] r IH]; intros a; cbn; [tauto|].
+  destruct (i =? id) eqn:E; [eauto|]. apply Z.eqb_neq in E. intros [H|H]; [congruence|]. apply IH. exact H.
+Qed.
+
+Lemma index_from_skipn n : forall a bl i id,
+  In (i, id) (indexed_from a (map fst bl)) -> a + Z.of_nat n <= i ->
+  exists j, index_from id (skipn n bl) (a + Z.of_nat n) = Some j.
+Proof.
+  induction n as [|n IH]; intros a bl i id Hin Hle.
+  - cbn [skipn Z.of_nat]. apply index_from_some. apply indexed_from_in in Hin. tauto.
+  - destruct bl as [|[x t] r]; [destruct Hin|]. cbn [map fst indexed_from] in Hin. destruct Hin as [H|H].
+    + injection H as <- _. lia.
+    + cbn [skipn]. replace (a + Z.of_nat (S n)) with ((a + 1) + Z.of_nat n) by lia. eapply IH; [exact H|lia].
+Qed.
+
+Lemma swap_nth_length {A} i j (l : list A) : length (swap_nth i j l) = length l.
+Proof. unfold swap_nth. destruct (nth_error l i); [|reflexivity]. destruct (nth_error l j); [|reflexivity]. rewrite !update_nth_length. reflexivity. Qed.
+
+Lemma swap_immovable_mono bl immc id bl' immc' sw :
+  swap_immovable bl immc id = (bl', immc', sw) -> 0 <= immc <= zlen bl ->
+  immc <= immc' /\ 0 <= immc' <= zlen bl' /\ zlen bl' = zlen bl.
+Proof.
+  unfold swap_immovable. intros H Hb. destruct (index_from id (skipn (Z.to_nat immc) bl) immc) as [j|] eqn:E.
+  - injection H as <- <- _. apply index_from_bounds in E. unfold zlen in *. rewrite swap_nth_length, skipn_length in *. lia.
+  - injection H as <- <- _. lia.
+Qed.
+
+Lemma swap_all_mono ids : forall bl immc acc bl' immc' sws,
+  swap_all bl immc ids acc = (bl', immc', sws) -> 0 <= immc <= zlen bl ->
+  immc <= immc' /\ 0 <= immc' <= zlen bl' /\ zlen bl' = zlen bl.
+Proof.
+  induction ids as [|id r IH]; intros bl immc acc bl' immc' sws; cbn [swap_all].
+  - intros H Hb; injection H as <- <- _. lia.
+  - destruct (swap_immovable bl immc id) as [[bl1 immc1] sw] eqn:Hs. intros H Hb.
+    destruct (swap_immovable_mono _ _ _ _ _ _ Hs Hb) as (A & B & C).
+    destruct sw; apply IH in H; auto; lia.
+Qed.
+
+Lemma swap_all_progress ids : forall bl immc bl' immc' sws,
+  ids <> [] -> NoDup (map fst bl) -> 0 <= immc <= zlen bl ->
+  (forall id, In id ids -> exists i, In (i, id) (indexed_from 0 (map fst bl)) /\ immc <= i) ->
+  swap_all bl immc ids [] = (bl', immc', sws) ->
+  immc < immc' <= zlen bl /\ zlen bl' = zlen bl.
+Proof.
+  intros bl immc bl' immc' sws Hne Hnd Hb Hall. destruct ids as [|id r]; [congruence|]. cbn [swap_all].
+  destruct (Hall id (or_introl eq_refl)) as (i & Hin & Hle).
+  destruct (index_from_skipn (Z.to_nat immc) 0 bl i id Hin ltac:(rewrite Z2Nat.id; lia)) as (j & Hj).
+  rewrite Z2Nat.id in Hj by lia. cbn [Z.add] in Hj.
+  destruct (swap_immovable bl immc id) as [[bl1 immc1] sw] eqn:Hs.
+  pose proof Hs as Hs'. unfold swap_immovable in Hs'. rewrite Hj in Hs'. injection Hs' as <- <- <-.
+  destruct (swap_immovable_mono _ _ _ _ _ _ Hs Hb) as (A & B & C).
+  intros H. apply swap_all_mono in H; [|lia]. lia.
+Qed.
+
+Lemma mem_zb_in x l : mem_zb x l = true <-> In x l.
+Proof.
+  induction l as [|y r IH]; cbn; [split; [discriminate|tauto]|].
+  rewrite orb_true_iff, IH, Z.eqb_eq. tauto.
+Qed.
+
+Lemma swap_order_spec ord imm :
+  (forall x, In x (swap_order ord imm) -> In x imm) /\ (imm <> [] -> swap_order ord imm <> []).
+Proof.
+  unfold swap_order. set (o := filter (fun x => mem_zb x imm) (dedup ord [])). split.
+  - intros x Hin. apply in_app_or in Hin. destruct Hin as [Hin|Hin]; apply filter_In in Hin.
+    + apply mem_zb_in. tauto.
+    + tauto.
+  - intros Hne. destruct imm as [|y r]; [congruence|]. cbn [filter].
+    destruct (mem_zb y o) eqn:E; cbn [negb].
+    + apply mem_zb_in in E. destruct o; [destruct E|discriminate].
+    + intros H. apply app_eq_nil in H. destruct H as (_ & H). discriminate.
+Qed.
+
+Lemma complete_pass_progress st c p ds ord :
+  WF st -> Forall (reserved st) (c_moves c) -> NoDup (map m_src (c_moves c) ++ map m_tmp (c_moves c)) ->
+  r_kind (complete_pass st c p ds ord) = ROk -> 0 <= c_immovable c ->
+  (forall m, In m (c_moves c) -> In (m_srcidx m, m_srcblk m) (indexed st) /\ c_immovable c <= m_srcidx m) ->
+  let r := complete_pass st c p ds ord in
+  zlen (d_blocks (r_st r)) = zlen (d_blocks st) /\
+  (has_ignore (c_moves c) ds = true -> c_immovable c < c_immovable (r_ctx r) <= zlen (d_blocks st)) /\
+  (has_ignore (c_moves c) ds = false ->
+   c_immovable (r_ctx r) = c_immovable c /\ map fst (d_blocks (r_st r)) = map fst (d_blocks st)).
+Proof.
+  intros HW Hres Hnd Hok Himm Hsrc r.
+  destruct (complete_pass_inv st c p ds ord Hok) as (cp & Hcm & Herr & _ & Hperm & _ & _ & _ & _ & Hnil).
+  destruct (complete_moves_ok (c_moves c) (mkCP st p [] false) ds cp HW Hres Hnd Hcm Herr) as (_ & (F1 & _ & _) & _).
+  destruct (complete_moves_imm (c_moves c) (mkCP st p [] false) ds cp Hcm Herr) as (I1 & _ & I3 & I4).
+  cbn [cp_st cp_imm] in *.
+  assert (Hlen : zlen (d_blocks (cp_st cp)) = zlen (d_blocks st)).
+  { unfold zlen. rewrite <- (map_length fst (d_blocks (cp_st cp))), F1, map_length. reflexivity. }
+  split; [unfold zlen in *; fold r in Hperm; rewrite (Permutation_length Hperm); exact Hlen|].
+  split.
+  - intros Hi. specialize (I3 Hi).
+    (* open complete_pass to reach swap_all *)
+    unfold r, complete_pass in *. rewrite Hcm in *.
+    destruct (swap_all (d_blocks (cp_st cp)) (c_immovable c) (swap_order ord (cp_imm cp)) []) as [[bl immc] sws] eqn:Hsw.
+    cbn [r_ctx c_immovable].
+    destruct (swap_order_spec ord (cp_imm cp)) as (S1 & S2).
+    assert (Hmsne : exists m, In m (c_moves c)).
+    { destruct (cp_imm cp) as [|id0 rest] eqn:E; [congruence|].
+      destruct (I1 id0 (or_introl eq_refl)) as [[]|(m & Hm & _)]. exists m. exact Hm. }
+    destruct Hmsne as (m0 & Hm0). destruct (Hsrc m0 Hm0) as (Hin0 & Hle0).
+    assert (Hb : 0 <= c_immovable c <= zlen (d_blocks (cp_st cp))).
+    { unfold indexed in Hin0. apply indexed_from_in in Hin0. rewrite Hlen. unfold zlen in *. rewrite map_length in Hin0. lia. }
+    assert (Hnd' : NoDup (map fst (d_blocks (cp_st cp)))) by (rewrite F1; apply (wb_ids _ (wf_b _ HW))).
+    assert (Hall : forall id, In id (swap_order ord (cp_imm cp)) ->
+              exists i, In (i, id) (indexed_from 0 (map fst (d_blocks (cp_st cp)))) /\ c_immovable c <= i).
+    { intros id Hid. destruct (I1 id (S1 id Hid)) as [[]|(m & Hm & E)]. destruct (Hsrc m Hm) as (A & B).
+      exists (m_srcidx m). rewrite F1, <- E. split; [exact A|exact B]. }
+    destruct (swap_all_progress _ _ _ _ _ _ (S2 I3) Hnd' Hb Hall Hsw) as (P1 & P2). lia.
+  - intros Hi. specialize (I4 Hi). destruct (Hnil I4) as (E1 & E2). fold r in E1, E2. rewrite E1. split; [exact E2|exact F1].
+Qed.
+
+Lemma outcomes_no_ignore a b ms : forall ds,
+  has_ignore ms ds = false -> outcomes a b ms ds ->
+  forall m, In m ms ->
+    ((exists es, entry a (m_src m) = Some es /\ entry b (m_src m) = Some (moved_to es m)) \/
+     entry b (m_src m) = None) /\
+    entry b (m_tmp m) = None.
+Proof.
+  induction ms as [|x r IH]; intros ds; cbn [outcomes has_ignore]; [intros _ _ m []|].
+  intros Hi (A & _ & C & D & E) m [<-|Hm].
+  - apply orb_false_elim in Hi. destruct Hi as (Hi & _). apply Z.eqb_neq in Hi.
+    split; [|exact D]. destruct (norm_decision_cases (hd 0 ds)) as [H0|[H1|H2]]; [left; apply A; exact H0|congruence|right; apply C; exact H2].
+  - apply orb_false_elim in Hi. destruct Hi as (_ & Hi). eapply IH; eauto.
+Qed.
+
+(* what one undisturbed pass with arbitrary decisions does *)
+Lemma one_pass_spec st c mb ma ds ord st' c' p' ms :
+  WF st -> c_moves c = [] -> 0 <= c_immovable c -> 1 <= ma -> 0 <= mb ->
+  one_pass st c mb ma ds ord = Some (st', c', p', ms) ->
+  WF st' /\ c_moves c' = [] /\ zlen (d_blocks st') = zlen (d_blocks st) /\ 0 <= c_immovable c' /\
+  (has_ignore ms ds = true -> c_immovable c < c_immovable c' <= zlen (d_blocks st)) /\
+  (has_ignore ms ds = false ->
+     c_immovable c' = c_immovable c /\ map fst (d_blocks st') = map fst (d_blocks st) /\
+     (length (d_table st) <= length (d_table st'))%nat /\
+     (forall m, In m ms ->
+        In (m_srcidx m, m_srcblk m) (indexed st) /\ In (m_dstidx m, m_dstblk m) (indexed st) /\
+        (m_dstidx m < m_srcidx m \/ (m_dstblk m = m_srcblk m /\ m_dstoff m < m_srcoff m)) /\
+        0 <= m_dstoff m /\ (m_src m < length (d_table st))%nat /\
+        exists es, entry st (m_src m) = Some es /\ u_temp es = false /\ u_blk es = m_srcblk m /\
+                   u_off es = m_srcoff m /\
+                   (entry st' (m_src m) = Some (moved_to es m) \/ entry st' (m_src m) = None)) /\
+     (forall s, ~ In s (map m_src ms) -> (s < length (d_table st))%nat -> entry st' s = entry st s) /\
+     (forall s e, (length (d_table st) <= s)%nat -> entry st' s = Some e -> u_temp e = true)).
+Proof.
+  intros HW Hfresh Himm Hma Hmb. unfold one_pass.
+  destruct (collect_moves st c (pass_init mb ma)) as [cs r] eqn:Hcol.
+  pose proof (collect_cinv st c mb ma HW Hma Hmb Hfresh) as Hci. rewrite Hcol in Hci. cbn [fst snd] in Hci.
+  destruct Hci as (new & HC & _ & Hmoves).
+  pose proof (sources_are_user_allocs_once st c mb ma HW Hma Hmb Hfresh) as Hsrc. rewrite Hcol in Hsrc. cbn [fst] in Hsrc.
+  destruct Hsrc as (Hsrc & Hnds & Hndt & Hcross).
+  pose proof (collect_reserves st c mb ma HW Hma Hmb Hfresh) as Hres. rewrite Hcol in Hres. cbn [fst] in Hres.
+  destruct Hres as (HWc & Hext & Hres).
+  pose proof (moves_forward st c mb ma HW Hma Hmb Hfresh) as Hfw. rewrite Hcol in Hfw. cbn [fst] in Hfw.
+  assert (Hlo : forall m, In m (cs_moves cs) -> c_immovable c <= m_srcidx m).
+  { intros m Hm. pose proof (collect_src_not_immovable st c (pass_init mb ma) m Himm) as H. rewrite Hcol in H. cbn [fst] in H.
+    destruct (H Hm) as [H1|H1]; [rewrite Hfresh in H1; destruct H1|exact H1]. }
+  set (c1 := mkC (c_algo c) (cs_moves cs) (c_immovable c)).
+  assert (Hnd : NoDup (map m_src (c_moves c1) ++ map m_tmp (c_moves c1))).
+  { cbn [c1 c_moves]. apply NoDup_app_intro; auto.
+    intros x Hx1 Hx2. apply in_map_iff in Hx1. destruct Hx1 as (m1 & <- & H1).
+    apply in_map_iff in Hx2. destruct Hx2 as (m2 & E & H2). apply (Hcross m1 m2 H1 H2). symmetry. exact E. }
+  assert (Hres1 : Forall (reserved (cs_st cs)) (c_moves c1)) by exact Hres.
+  assert (Hixeq : indexed (cs_st cs) = indexed st) by (unfold indexed; rewrite (proj1 Hext); reflexivity).
+  assert (Hlenb : zlen (d_blocks (cs_st cs)) = zlen (d_blocks st)).
+  { unfold zlen. rewrite <- (map_length fst (d_blocks (cs_st cs))), (proj1 Hext), map_length. reflexivity. }
+  assert (Hmain : forall (Hk : r_kind (complete_pass (cs_st cs) c1 (cs_pass cs) ds ord) = ROk),
+            let rr := complete_pass (cs_st cs) c1 (cs_pass cs) ds ord in
+            WF (r_st rr) /\ c_moves (r_ctx rr) = [] /\ zlen (d_blocks (r_st rr)) = zlen (d_blocks st) /\ 0 <= c_immovable (r_ctx rr) /\
+            (has_ignore (cs_moves cs) ds = true -> c_immovable c < c_immovable (r_ctx rr) <= zlen (d_blocks st)) /\
+            (has_ignore (cs_moves cs) ds = false ->
+               c_immovable (r_ctx rr) = c_immovable c /\ map fst (d_blocks (r_st rr)) = map fst (d_blocks st) /\
+               (length (d_table st) <= length (d_table (r_st rr)))%nat /\
+               (forall m, In m (cs_moves cs) ->
+                  In (m_srcidx m, m_srcblk m) (indexed st) /\ In (m_dstidx m, m_dstblk m) (indexed st) /\
+                  (m_dstidx m < m_srcidx m \/ (m_dstblk m = m_srcblk m /\ m_dstoff m < m_srcoff m)) /\
+                  0 <= m_dstoff m /\ (m_src m < length (d_table st))%nat /\
+                  exists es, entry st (m_src m) = Some es /\ u_temp es = false /\ u_blk es = m_srcblk m /\
+                             u_off es = m_srcoff m /\
+                             (entry (r_st rr) (m_src m) = Some (moved_to es m) \/ entry (r_st rr) (m_src m) = None)) /\
+               (forall s, ~ In s (map m_src (cs_moves cs)) -> (s < length (d_table st))%nat -> entry (r_st rr) s = entry st s) /\
+               (forall s e, (length (d_table st) <= s)%nat -> entry (r_st rr) s = Some e -> u_temp e = true))).
+  { intros Hk rr.
+    pose proof (complete_pass_wf _ _ _ _ _ HWc Hres1 Hnd Hk) as (HW' & _ & _ & Hlen & Hmv).
+    pose proof (move_outcome _ _ _ _ _ HWc Hres1 Hnd Hk) as (Hout & Hun).
+    assert (Hsrc1 : forall m, In m (c_moves c1) -> In (m_srcidx m, m_srcblk m) (indexed (cs_st cs)) /\ c_immovable c1 <= m_srcidx m).
+    { intros m Hm. cbn [c1 c_moves c_immovable] in *. rewrite Hixeq. split; [apply (Hfw m Hm)|apply (Hlo m Hm)]. }
+    pose proof (complete_pass_progress _ _ _ ds ord HWc Hres1 Hnd Hk Himm Hsrc1) as (P0 & P1 & P2).
+    fold rr in HW', Hlen, Hmv, Hout, Hun, P0, P1, P2. cbn [c1 c_moves c_immovable] in *.
+    split; [exact HW'|]. split; [exact Hmv|]. split; [rewrite P0; exact Hlenb|].
+    split.
+    { destruct (has_ignore (cs_moves cs) ds) eqn:Hi; [specialize (P1 eq_refl); lia|destruct (P2 eq_refl) as (E & _); lia]. }
+    split; [intros Hi; specialize (P1 Hi); rewrite Hlenb in P1; exact P1|].
+    intros Hi. destruct (P2 Hi) as (E1 & E2).
+    pose proof (outcomes_no_ignore _ _ _ _ Hi Hout) as Hoc.
+    split; [exact E1|]. split; [rewrite E2; apply (proj1 Hext)|].
+    split; [rewrite Hlen; destruct Hext as (_ & _ & E3 & _); exact E3|].
+    split.
+    { intros m Hm. destruct (Hfw m Hm) as (F1 & F2 & F3). destruct (Hsrc m Hm) as (es & S1 & S2 & S3 & S4 & S5 & _).
+      destruct (Hoc m Hm) as (Ho & _).
+      split; [exact F1|]. split; [exact F2|]. split; [exact F3|]. split.
+      { rewrite Forall_forall in Hres. destruct (Hres m Hm) as (_ & (et & T1 & _ & T3 & T4 & _)).
+        destruct (wf_own _ HWc _ _ T1) as ((b & (t & Hf & Hin & Ho') & _) & _).
+        destruct (wb_tinv _ (wf_b _ HWc) _ _ Hf) as ((Hinv & _) & _).
+        destruct (inv1_live_sound _ Hinv _ Hin) as (Hge & _). rewrite <- T4, <- Ho'. exact Hge. }
+      split; [eapply entry_lt; eauto|]. exists es. split; [exact S1|]. split; [exact S3|]. split; [exact S4|]. split; [exact S5|].
+      destruct Ho as [(es' & O1 & O2)|O]; [|right; exact O]. rewrite S2 in O1. injection O1 as <-. left. exact O2. }
+    split.
+    { intros s Hs Hlt. rewrite Hun.
+      - destruct Hext as (_ & _ & _ & E4). apply E4. exact Hlt.
+      - exact Hs.
+      - intros Hin. apply in_map_iff in Hin. destruct Hin as (m & E & Hm).
+        pose proof (ci_ok _ _ _ _ _ _ HC) as Hok. rewrite Forall_forall in Hok. rewrite Hmoves in Hm.
+        destruct (Hok m Hm) as [_ _ _ _ _ T]. lia. }
+    intros s e Hs He.
+    destruct (in_dec Nat.eq_dec s (map m_tmp (cs_moves cs))) as [Hin|Hnin].
+    { apply in_map_iff in Hin. destruct Hin as (m & <- & Hm). destruct (Hoc m Hm) as (_ & Hn). congruence. }
+    rewrite Hun in He; [apply (ci_newtemps _ _ _ _ _ _ HC s e Hs He)| |exact Hnin].
+    intros Hin. apply in_map_iff in Hin. destruct Hin as (m & E & Hm). destruct (Hsrc m Hm) as (es & S1 & _).
+    apply entry_lt in S1. lia. }
+  destruct r as [| |w]; [| |discriminate].
+  all: destruct (r_kind (complete_pass (cs_st cs) c1 (cs_pass cs) ds ord)) eqn:Hk; try discriminate.
+  all: intros H; injection H as <- <- <- <-; exact (Hmain eq_refl).
+Qed.
+
+Lemma sum_n_eq_pointwise f g n :
+  (forall s, (s < n)%nat -> (f s <= g s)%nat) -> sum_n f n = sum_n g n -> forall s, (s < n)%nat -> f s = g s.
+Proof.
+  induction n as [|k IH]; intros Hle Heq s Hs; [lia|]. cbn in Heq.
+  pose proof (Hle k ltac:(lia)) as Hk.
+  pose proof (sum_n_le f g k ltac:(intros x Hx; apply Hle; lia)) as Hsum.
+  destruct (Nat.eq_dec s k) as [->|Hne]; [lia|]. apply IH; [intros x Hx; apply Hle; lia|lia|lia].
+Qed.
+
+Lemma blk_index_ix st i id : WF st -> In (i, id) (indexed st) -> blk_index st id = Z.to_nat i /\ 0 <= i.
+Proof.
+  intros HW Hin. unfold blk_index, indexed in *.
+  rewrite (indexed_index _ _ _ _ (wb_ids _ (wf_b _ HW)) Hin). split; [reflexivity|].
+  apply indexed_from_in in Hin. lia.
+Qed.
+
+(* a pass without an ignored move: every moved or destroyed allocation goes down in the
+   lexicographic order (block index, offset), nothing else changes *)
+Section PassDecreases2.
+  Variables (st st' : dstate) (ms : list move).
+  Hypothesis HW : WF st.
+  Hypothesis Hids : map fst (d_blocks st') = map fst (d_blocks st).
+  Hypothesis Hlen : (length (d_table st) <= length (d_table st'))%nat.
+  Hypothesis Hmoves : forall m, In m ms ->
+     In (m_srcidx m, m_srcblk m) (indexed st) /\ In (m_dstidx m, m_dstblk m) (indexed st) /\
+     (m_dstidx m < m_srcidx m \/ (m_dstblk m = m_srcblk m /\ m_dstoff m < m_srcoff m)) /\
+     0 <= m_dstoff m /\ (m_src m < length (d_table st))%nat /\
+     exists es, entry st (m_src m) = Some es /\ u_temp es = false /\ u_blk es = m_srcblk m /\
+                u_off es = m_srcoff m /\
+                (entry st' (m_src m) = Some (moved_to es m) \/ entry st' (m_src m) = None).
+  Hypothesis Hun : forall s, ~ In s (map m_src ms) -> (s < length (d_table st))%nat -> entry st' s = entry st s.
+  Hypothesis Hnew : forall s e, (length (d_table st) <= s)%nat -> entry st' s = Some e -> u_temp e = true.
+
+  Lemma src_weights2 m : In m ms ->
+    w_idx st (m_src m) = Z.to_nat (m_srcidx m) /\ w_off st (m_src m) = Z.to_nat (m_srcoff m) /\
+    0 <= m_srcidx m /\ 0 <= m_dstidx m /\ 0 <= m_dstoff m /\
+    ((w_idx st' (m_src m) = Z.to_nat (m_dstidx m) /\ w_off st' (m_src m) = Z.to_nat (m_dstoff m)) \/
+     (w_idx st' (m_src m) = O /\ w_off st' (m_src m) = O)).
+  Proof.
+    intros Hm. destruct (Hmoves m Hm) as (I1 & I2 & _ & Hd0 & _ & es & E1 & E2 & E3 & E4 & E5).
+    destruct (blk_index_ix _ _ _ HW I1) as (B1 & P1). destruct (blk_index_ix _ _ _ HW I2) as (B2 & P2).
+    unfold w_idx, w_off. rewrite E1, E2, E3, E4, B1.
+    split; [reflexivity|]. split; [reflexivity|]. split; [exact P1|]. split; [exact P2|]. split; [exact Hd0|].
+    destruct E5 as [E5|E5]; rewrite E5.
+    - left. cbn [moved_to u_temp u_blk u_off]. rewrite E2, (blk_index_same _ _ Hids), B2. auto.
+    - right. auto.
+  Qed.
+
+  Lemma same_idx m : In m ms -> m_dstblk m = m_srcblk m -> m_dstidx m = m_srcidx m.
+  Proof.
+    intros Hm F. destruct (Hmoves m Hm) as (I1 & I2 & _). rewrite F in I2. unfold indexed in I1, I2.
+    symmetry. exact (indexed_from_id_fun _ _ _ _ _ (wb_ids _ (wf_b _ HW)) I1 I2).
+  Qed.
+
+  Lemma idx_pointwise2 s : (s < length (d_table st))%nat -> (w_idx st' s <= w_idx st s)%nat.
+  Proof.
+    intros Hlt. destruct (in_dec Nat.eq_dec s (map m_src ms)) as [Hin|Hnin].
+    - apply in_map_iff in Hin. destruct Hin as (m & <- & Hm).
+      destruct (src_weights2 m Hm) as (A & _ & P1 & P2 & _ & [(B & _)|(B & _)]); rewrite A, B; [|lia].
+      destruct (Hmoves m Hm) as (_ & _ & [F|(F & _)] & _); [lia|]. rewrite (same_idx m Hm F). lia.
+    - destruct (other_weights st st' ms Hids Hun s Hnin Hlt) as (-> & _). lia.
+  Qed.
+
+  Theorem pass_decreases :
+    ms <> [] ->
+    (m_idx st' < m_idx st)%nat \/ (m_idx st' = m_idx st /\ (m_off st' < m_off st)%nat).
+  Proof.
+    intros Hne. destruct (measures_tail st st' Hlen Hnew) as (T1 & T2). rewrite T1, T2. unfold m_idx, m_off.
+    set (N := length (d_table st)).
+    pose proof (sum_n_le (w_idx st') (w_idx st) N idx_pointwise2) as Hle.
+    destruct (Nat.eq_dec (sum_n (w_idx st') N) (sum_n (w_idx st) N)) as [Heq|Hneq]; [|left; lia].
+    right. split; [exact Heq|].
+    pose proof (sum_n_eq_pointwise _ _ _ idx_pointwise2 Heq) as Hpt.
+    assert (Hsrc_lt : forall m, In m ms -> (w_off st' (m_src m) < w_off st (m_src m))%nat).
+    { intros m Hm. destruct (Hmoves m Hm) as (_ & _ & Hfw & _ & Hs & _).
+      specialize (Hpt _ Hs).
+      destruct (src_weights2 m Hm) as (A & B & P1 & P2 & P3 & [(C & D)|(C & D)]); rewrite A, C in Hpt; rewrite B, D.
+      - destruct Hfw as [F|(_ & F)]; [lia|lia].
+      - destruct Hfw as [F|(_ & F)]; [lia|lia]. }
+    apply sum_n_lt.
+    - intros s Hlt. destruct (in_dec Nat.eq_dec s (map m_src ms)) as [Hin|Hnin].
+      + apply in_map_iff in Hin. destruct Hin as (m & <- & Hm). specialize (Hsrc_lt m Hm). lia.
+      + destruct (other_weights st st' ms Hids Hun s Hnin Hlt) as (_ & ->). lia.
+    - destruct (nonempty_in ms Hne) as (m & Hm). exists (m_src m).
+      destruct (Hmoves m Hm) as (_ & _ & _ & _ & Hs & _). split; [exact Hs|apply Hsrc_lt; exact Hm].
+  Qed.
+End PassDecreases2.
+
+(* C15 (7), general: with no user operation between the passes and ANY decisions (Copy, Ignore,
+   Destroy, any map iteration order), every pass that proposes a move strictly decreases the
+   lexicographic measure
+       (BlockCount - immovableBlockCount,  sum of block indices,  sum of offsets)
+   over the user allocations: a pass with an ignored move makes at least one more block
+   immovable; a pass without one leaves the block order alone and every moved or destroyed
+   allocation goes down in (block index, offset).  Hence every run reaches a pass that proposes
+   nothing (RunDone), or stops with a failure, after finitely many passes. *)
+Theorem run_terminates st c mb ma dec acc n log :
+  WF st -> c_moves c = [] -> 0 <= c_immovable c -> 1 <= ma -> 0 <= mb ->
+  exists fuel, run_any fuel st c mb ma dec acc n log <> RunOutOfFuel.
+Proof.
+  intros HW Hfresh Himm Hma Hmb.
+  remember (Z.to_nat (zlen (d_blocks st) - c_immovable c)) as k eqn:Hk.
+  remember (m_idx st) as a eqn:Ha. remember (m_off st) as b eqn:Hb.
+  revert a b st c acc n log HW Hfresh Himm Hk Ha Hb.
+  induction k as [k IHk] using lt_wf_ind. intros a.
+  induction a as [a IHa] using lt_wf_ind. intros b.
+  induction b as [b IHb] using lt_wf_ind. intros st c acc n log HW Hfresh Himm Hk Ha Hb.
+  destruct (one_pass_with st c mb ma (dec n)) as [[[[st' c'] p'] ms]|] eqn:Hp.
+  2:{ exists 1%nat. cbn [run_any]. rewrite Hp. discriminate. }
+  destruct ms as [|m r].
+  { exists 1%nat. cbn [run_any]. rewrite Hp. discriminate. }
+  pose proof Hp as Hp'. unfold one_pass_with in Hp'.
+  set (ds := fst (dec n (cs_moves (fst (collect_moves st c (pass_init mb ma)))))) in *.
+  set (ord := snd (dec n (cs_moves (fst (collect_moves st c (pass_init mb ma)))))) in *.
+  destruct (one_pass_spec _ _ _ _ _ _ _ _ _ _ HW Hfresh Himm Hma Hmb Hp')
+    as (HW' & Hfresh' & Hzl & Himm' & Hign & Hnoign).
+  assert (Hrec : exists fuel, run_any fuel st' c' mb ma dec (ps_add acc (p_stats p')) (S n) (log ++ [m :: r]) <> RunOutOfFuel).
+  { destruct (has_ignore (m :: r) ds) eqn:Hi.
+    - specialize (Hign eq_refl).
+      eapply (IHk (Z.to_nat (zlen (d_blocks st') - c_immovable c'))); [lia|exact HW'|exact Hfresh'|exact Himm'|reflexivity|reflexivity|reflexivity].
+    - destruct (Hnoign eq_refl) as (E1 & Hids & Hlen & Hmoves & Hun & Hnew).
+      assert (Hk' : k = Z.to_nat (zlen (d_blocks st') - c_immovable c')) by (rewrite Hzl, E1; exact Hk).
+      destruct (pass_decreases st st' (m :: r) HW Hids Hlen Hmoves Hun Hnew ltac:(discriminate)) as [Hdec|(He & Hdec)].
+      + eapply (IHa (m_idx st')); [lia|exact HW'|exact Hfresh'|exact Himm'|exact Hk'|reflexivity|reflexivity].
+      + eapply (IHb (m_off st')); [lia|exact HW'|exact Hfresh'|exact Himm'|exact Hk'|congruence|reflexivity]. }
+  destruct Hrec as (fuel & Hf). exists (S fuel). cbn [run_any]. rewrite Hp. exact Hf.
+Qed.
+
+(* ================================================================== non-vacuity: a concrete run *)
+
+(* two blocks of 1024; allocations 100,(200),100 in block 0 and (150),50,300 in block 1, the
+   bracketed ones freed: the Full algorithm empties block 1 and compacts block 0 in one pass
+   (three moves), the second pass proposes nothing *)
+Definition ex_world : dstate :=
+  let st0 := dstate_init [1024; 1024] false in
+  let a (st : dstate) (id size : Z) := fst (user_alloc st id size 1 2 7) in
+  let st1 := a (a (a (a (a (a st0 0 100) 0 200) 0 100) 1 150) 1 50) 1 300 in
+  fst (free_slot (fst (free_slot st1 1)) 3).
+
+Lemma ex_run_done :
+  match run_copy 10 ex_world (mkC 2 [] 0) max_int max_int ps_zero 0 [] with
+  | RunDone _ passes acc log => passes = 1%nat /\ ps_allocs_moved acc = 3 /\ ps_bytes_moved acc = 450
+  | _ => False
+  end.
+Proof. vm_compute. auto. Qed.
+
+(* ================================================================== findings reproduced on the model *)
+
+(* Init does not reset immovableBlockCount: a context that is reused for a second run, after a
+   run in which a move was ignored, never looks at the blocks that became immovable again; a
+   fresh context does.  State: one block of 1024, slot 1 (100 bytes) at offset 100, offset 0 free.
+   Run 1 proposes 100 -> 0; the caller ignores the move, the block becomes immovable.
+   Run 2 on the same context object (Init called again) proposes nothing; a fresh context proposes
+   the same move again. *)
+Definition reuse_world : dstate :=
+  let st0 := dstate_init [1024] false in
+  let st1 := fst (user_alloc (fst (user_alloc st0 0 100 1 2 7)) 0 100 1 2 8) in
+  fst (free_slot st1 0).
+
+Definition reuse_after_run1 : option (dstate * dctx) :=
+  match one_pass reuse_world (mkC 2 [] 0) max_int max_int [1] [] with
+  | Some (st, c, _, _) => Some (st, c)
+  | None => None
+  end.
+
+Lemma reused_context_not_fresh_refuted :
+  match reuse_after_run1 with
+  | Some (st, c) =>
+    c_immovable c = 1 /\
+    (* the same context object after Init (OpBegin with reuse = 1 keeps c_immovable) *)
+    length (cs_moves (fst (collect_moves st (mkC 2 [] (c_immovable c)) (pass_init max_int max_int)))) = 0%nat /\
+    (* a fresh context *)
+    length (cs_moves (fst (collect_moves st (mkC 2 [] 0) (pass_init max_int max_int)))) = 1%nat
+  | None => False
+  end.
+Proof. vm_compute. auto. Qed.
